@@ -1,0 +1,6 @@
+//go:build !verif
+
+package bttest
+
+func verifYield(string)      {}
+func verifCrashPoint(string) {}
